@@ -215,6 +215,38 @@ def run(ctx):
         ctx.nontrivial(("thdm", h))
     ctx.evals(len(cases))
     ctx.sample({"thdm_case": "gauge ytype smNULL cfgNULL basisNULL outNULL pset force running smvar = " + items[5][1]})
+
+    # ---- (d) C entry points without a model handle ---------------------------------------------------
+    # every function declared in the public C headers must be driven by one of the passes: the generated MSSM
+    # table (a, b), the THDM constructor product (c), or this pass
+    import glob
+    import re
+    declared = set()
+    for hdr in sorted(glob.glob(os.path.join(build.REPO, "include", "gm2calc", "*.h"))):
+        txt = re.sub(r"/\*.*?\*/", "", open(hdr, encoding="latin-1").read(), flags=re.S)
+        txt = re.sub(r"//[^\n]*", "", txt)
+        declared.update(m.group(1) for m in re.finditer(r"\b(\w+)\s*\([^;{}()]*\)\s*;", txt) if m.group(1) not in ("defined", "__attribute__"))
+    covered = {"gm2calc_mssmnofv_" + f[1] for f in fns} | {
+        "gm2calc_thdm_new_with_gauge_basis", "gm2calc_thdm_new_with_mass_basis", "gm2calc_thdm_free",
+        "gm2calc_thdm_calculate_amu_1loop", "gm2calc_thdm_calculate_amu_2loop", "gm2calc_thdm_calculate_amu_2loop_fermionic",
+        "gm2calc_thdm_calculate_amu_2loop_bosonic", "gm2calc_thdm_calculate_uncertainty_amu_0loop",
+        "gm2calc_thdm_calculate_uncertainty_amu_1loop", "gm2calc_thdm_calculate_uncertainty_amu_2loop",
+        "int_to_c_yukawa_type", "gm2calc_error_str", "gm2calc_sm_set_to_default", "gm2calc_thdm_config_set_to_default", "print_mssmnofv"}
+    missing = sorted(d for d in declared if d not in covered)
+    if missing:
+        raise InfraError("C functions declared in include/gm2calc/*.h that no pass of C17 drives: %s" % missing)
+    ctx.note("c_functions_declared", len(declared))
+    hitems = [("y%d" % i, "yuk %d" % v) for i, v in enumerate([1, 2, 3, 4, 5, 6, 0, 7, -1, 8, 100, 255, 256, 65536, -2147483648, 2147483647])]
+    hitems += [("e%d" % i, "errstr %d" % v) for i, v in enumerate([0, 1, 2, 3])]      # the enumerators of gm2calc_error; other ints are not values of the type
+    hitems += [("d0", "defaults 0")] + [("p%d" % v, "print %d" % v) for v in (0, 1, 2, 3)]
+    hres = _parallel(exe, "helper", hitems)
+    for tid, txt in hitems:
+        status, h, detail = hres[tid]
+        if status != "OK":
+            ctx.fail("helper:%s:%s" % (txt.split()[0], key_of(status, detail)), "C helper case '%s': %s %s" % (txt, status, detail[:300]), {"kind": "helper", "case": txt})
+        else:
+            ctx.nontrivial(("helper", txt.split()[0], h))
+    ctx.evals(len(hitems))
     ctx.assumptions += ["indices passed to indexed getters/setters stay in range (out-of-range indices are outside the property)",
                         "sequence depth bounded; longer histories are covered only through merged states"]
     return ctx.finish(
@@ -232,6 +264,8 @@ def replay(ctx, path):
         r = _run_lines(exe, "seq", ["x " + d["tokens"]])
     elif d.get("kind") == "thdm":
         r = _run_lines(exe, "thdm", ["x " + d["case"]])
+    elif d.get("kind") == "helper":
+        r = _run_lines(exe, "helper", ["x " + d["case"]])
     else:
         print("re-run bin/vcheck C17 for this case kind")
         return 0
